@@ -8,6 +8,9 @@
 //   t startx <code>  same, the body throws test_exc(code)
 //   t value <v> | t exc <code> | t drop      p(value) / p(exception) / p(drop)
 //   t dtor           ~promise, sequenced after every other thread
+//   t wait           the bound party: blocking `wait()` on the shared future                      -> `obs t<i> <outcome>`
+//   t join <v>       own coroutine (awaits the gate, returns v) started and awaited by `join()`   -> `obs t<i> <outcome>`
+//   t open           opens the gate from this thread (otherwise the controller opens it after the run)
 //   sched 0 1 1 0 ...
 //   end
 // Output: the op log (`s <tid> <op> <object> <seen>[>desired]`), `body t<i>`, `bodyend t<i>`, `argd t<i>`, `ret t<i> <0|1>`,
@@ -97,10 +100,37 @@ struct Scn {
         }
     }
 
+    bool gate_opened = false;
+
+    template <typename Fn> std::string observe(Fn &&fn) {
+        try {
+            if constexpr (std::is_void_v<T>) { fn(); return "v"; }
+            else { auto &&r = fn(); return P<T>::show(r); }
+        } catch (const await_canceled_exception &) {
+            return "canceled";
+        } catch (const test_exc &e) {
+            return "exc:" + std::to_string(e.code);
+        } catch (const value_not_ready_exception &) {
+            return "notready";
+        } catch (...) {
+            return "other";
+        }
+    }
+
     void thread_body(const std::vector<std::string> &a, int tid) {
         bool r;
         const std::string &k = a[1];
-        if (k == "start" || k == "startw" || k == "startx") {
+        if (k == "wait") {
+            log("obs t" + std::to_string(tid) + " " + observe([&]() -> decltype(auto) { return fut->wait(); }));
+            return;
+        } else if (k == "join") {
+            log("obs t" + std::to_string(tid) + " " + observe([&]() -> decltype(auto) { return co[tid]->join(); }));
+            return;
+        } else if (k == "open") {
+            gate_opened = true;
+            (*gate_prom)();
+            return;
+        } else if (k == "start" || k == "startw" || k == "startx") {
             {
                 suspend_point<bool> sp = co[tid]->start(*prom);
                 r = sp;
@@ -138,12 +168,14 @@ struct Scn {
             const std::string &k = threads[i][1];
             int v = threads[i].size() > 2 ? atoi(threads[i][2].c_str()) : 0;
             if (k == "start") co[i].emplace(body(this, i, 0, v, guard(i)));
-            else if (k == "startw") { co[i].emplace(body(this, i, 1, v, guard(i))); any_gate = true; }
+            else if (k == "startw" || k == "join") { co[i].emplace(body(this, i, 1, v, guard(i))); any_gate = true; }
             else if (k == "startx") co[i].emplace(body(this, i, 2, v, guard(i)));
         }
         std::vector<int> others;
-        for (int i = 0; i < n; i++)
-            if (threads[i][1] != "dtor") others.push_back(i);
+        for (int i = 0; i < n; i++) {   // the threads that use the promise object (waiters and the gate opener do not)
+            const std::string &k = threads[i][1];
+            if (k != "dtor" && k != "wait" && k != "join" && k != "open") others.push_back(i);
+        }
         for (int i = 0; i < n; i++) {
             auto t = threads[i];
             if (t[1] == "dtor") S().spawn([this, others] {
@@ -166,7 +198,7 @@ struct Scn {
         }
         log("run-end");
         if (prom) { prom.reset(); log("promise-destroyed"); }
-        if (any_gate) { log("gate-open"); (*gate_prom)(); }
+        if (any_gate && !gate_opened) { log("gate-open"); (*gate_prom)(); }
         gate_prom.reset();
         log("cleanup");
         for (int i = 0; i < n; i++) co[i].reset();   // destroys the coroutines that were never started
